@@ -98,6 +98,7 @@ def rd_parse(case):
             held = [] if f[3] == '-' else [tuple(int(x) for x in h.split(':')) for h in f[3].split(';')]
             d['ops'].append(('R', int(f[1]), [int(x) for x in f[2].split('+')], held, f[4]))
         elif f[0] == 'E': d['ops'].append(('E', int(f[1]), int(f[2])))
+        elif f[0] == 'P': d['ops'].append(('P', int(f[1]), int(f[2])))
         else: d['ops'].append(('T',))
     return d
 
@@ -108,6 +109,7 @@ def rd_case(page, unit, src, actual, filled, media, td, ops, pool=0, tp=0, refil
             fl = (o[4] if len(o) > 4 and o[4] else '-')
             return 'R/%d/%s/%s/%s' % (o[1], '+'.join(map(str, o[2])), held, fl)
         if o[0] == 'E': return 'E/%d/%d' % (o[1], o[2])
+        if o[0] == 'P': return 'P/%d/%d' % (o[1], o[2])
         return 'T'
     return ('RD tne=%d page=%d unit=%d pool=%d tp=%d maxr=128 thr=%d refilling=%d src=%s actual=%d filled=%s media=%s td=%d sor=%s wor=%s ops=%s'
             % (TNE, page, unit, pool, tp, thr, refilling, hx(src), actual, ';'.join('%d-%d' % iv for iv in filled) or '-', hx(media), td,
@@ -133,6 +135,7 @@ def rd_consistent(d):
             for (ho, hl, hf) in o[3]:
                 if hl <= 0: return False
         if o[0] == 'E' and (o[1] < 0 or o[2] < -1): return False
+        if o[0] == 'P' and not (0 <= o[2] < (1 << 24)): return False
     return True
 
 def rd_oracle(case, out):
@@ -151,6 +154,13 @@ def rd_oracle(case, out):
             if e.startswith('sr'):
                 off, ln, r = (int(x) for x in e[2:].split('/'))
                 if off + ln > S: return 'source read (offset %d, length %d) reaches beyond the source size %d' % (off, ln, S)
+        if o[0] == 'P':
+            ret = int(ret_s)
+            if any(t[0] in 'sf' for t in d['sor'] + d['wor']): continue
+            o1 = max(0, o[1]); a = o1 // d['page'] * d['page']; e = -((-(o1 + o[2])) // d['page']) * d['page']
+            exp = max(0, min(e, S) - a)
+            if ret != exp: return 'prefetch(offset %d, count %d) returned %d, expected %d' % (o[1], o[2], ret, exp)
+            continue
         if o[0] != 'R': continue
         off, cnt, flags = o[1], sum(o[2]), o[4]
         ret, ub = int(ret_s), unhx(ub_s)
@@ -428,7 +438,9 @@ class Check(DiffCheck):
                 if rng.random() < 0.08: fl += 'c'
                 if rng.random() < 0.1: fl += 's'
                 ops.append(('R', off, segs, held, fl))
-            elif k < 0.86:
+            elif k < 0.80:
+                ops.append(('P', rng.randrange(-1, S + 3), rng.randrange(0, S + 6)))
+            elif k < 0.90:
                 a = rng.randrange(0, S + 2); n = rng.choice((-1, -1, rng.randrange(1, S + 3)))
                 ops.append(('E', a, n))
             else:
@@ -528,6 +540,7 @@ class Check(DiffCheck):
             if any(o[0] == 'R' and o[3] for o in d['ops']): c += '+rangelock-wait'
             if d['pool'] and d['tp'] and d['refilling'] < 128: c += '+async'
             if any(o[0] in 'ET' for o in d['ops']): c += '+evict'
+            if any(o[0] == 'P' for o in d['ops']): c += '+prefetch'
             return c
         return k
 
